@@ -86,6 +86,15 @@ func newEtcdSuite(opts map[string]string) *etcdSuite {
 	return s
 }
 
+// expired records that an expected-guided wait ran into its deadline: the transcript has left the
+// expected path (model and implementation differ), so every later wait is cut to a few milliseconds
+// instead of adding its full deadline to the run time.
+func (s *etcdSuite) expired() {
+	if s.wait > 20*time.Millisecond {
+		s.wait = 20 * time.Millisecond
+	}
+}
+
 func (s *etcdSuite) close() {
 	verifhook.SetGate(nil)
 	for _, w := range s.ws {
@@ -516,6 +525,9 @@ func (s *etcdSuite) doWevents(id string, opts map[string]string) string {
 			continue
 		}
 		satisfied := want >= 0 && len(evs) >= want && (!wantCancel || m.canceled)
+		if !satisfied && want >= 0 && !time.Now().Before(deadline) {
+			s.expired()
+		}
 		if satisfied || !time.Now().Before(deadline) {
 			if graceEnd.IsZero() {
 				graceEnd = time.Now().Add(grace)
@@ -545,8 +557,12 @@ func (s *etcdSuite) do(t []string) string {
 		if w, ok := opts["want"]; ok {
 			want := atou(w)
 			deadline := time.Now().Add(s.wait)
-			for s.b.GetCurrentRevision() != want && time.Now().Before(deadline) {
+			// (the committed revision only grows: above `want` there is nothing to wait for)
+			for s.b.GetCurrentRevision() < want && time.Now().Before(deadline) {
 				time.Sleep(200 * time.Microsecond)
+			}
+			if s.b.GetCurrentRevision() != want {
+				s.expired()
 			}
 		}
 		return fmt.Sprintf("rev %d", s.b.GetCurrentRevision())
